@@ -9,6 +9,7 @@ import Poulpy.Lemmas.GadgetCore
 import Poulpy.Lemmas.MulNorm
 import Poulpy.Lemmas.CnvModel
 import Poulpy.Lemmas.CnvAssign
+import Poulpy.Lemmas.ValBridge
 import Poulpy.Props.C02
 import Poulpy.Props.C07
 
@@ -603,6 +604,185 @@ example (β : Ks.R 1) :
   mul_plain_phase_value 1 (by decide) [[1]] [[3], [0]] [[[1], [0]]] [[2]] 0 2 β rfl (by decide) (by decide) (by decide) (by decide) (by decide)
     (by decide) (by decide)
 
+/-! ## Composed statements: result phase = product at the documented scale (modulo the C08 kernel relation) -/
+
+/-- **`mul_const_decrypts`** — `glwe_mul_const`, one statement in one value domain (`R N = ℤ[X]/(X^N+1)`, `β = 2^{base2k}`): `A·phase(result)`
+plus `B·β^F·`(skipped top limbs, a multiple of the torus modulus) equals `B·β·val(phase a)·val(b)` plus the explicit normalisation error
+`E₀ + Σ s_i E_{i+1}`, where `(A, B, E)` is the value relation of the C08 kernel on each accumulator column (`hK`; for equal radices
+`C08.normalize_inter_value` discharges it with `A = 2^{…}`, `B = 2^{lo}`-type factors).  Composition of `mul_const_phase_value` and
+`mul_const_result_phase_modulo_norm` through `Lemmas/ValBridge.lean` (`ι ∘ valP ∘ phase` = weighted per-limb phases). -/
+theorem mul_const_decrypts {N : Nat} (hN : 0 < N) (big128 : Bool) (rb rs off b sa : Nat) (a0 : Col) (as : List Col) (cst : List Int)
+    (res : List Col) (h : mulConst false big128 N rb rs off b (a0 :: as) cst = some res)
+    (h0 : a0.length = sa) (hall : ∀ x ∈ as, x.length = sa) (hx0 : ∀ l ∈ a0, l.length = N) (hxs : ∀ x ∈ as, ∀ l ∈ x, l.length = N)
+    (hsa : 1 ≤ sa) (hsb : 1 ≤ cst.length) (hhi : (cnvOffsetSplit b off).1 ≤ sa + cst.length - 1)
+    (hres : C02L.GWF N (Ks.mkCt rb N res))
+    (A B : Int) (E : Nat → Poly) (hE : ∀ i, (E i).length = N)
+    (hK : ∀ i, i < as.length + 1 → ∀ C,
+      bigNormalizeOff big128 N rb rs (cnvOffsetSplit b off).2
+        (((a0 :: as).map (fun x => cnvByConstCol N (sa + cst.length - (cnvOffsetSplit b off).1) (cnvOffsetSplit b off).1 x cst)).getD i []) b = some C →
+      polyScale A (C02L.valP rb N C) = polyAdd (polyScale B (C02L.valP b N
+        (((a0 :: as).map (fun x => cnvByConstCol N (sa + cst.length - (cnvOffsetSplit b off).1) (cnvOffsetSplit b off).1 x cst)).getD i []))) (E i))
+    (s : List Poly) :
+    (A : Ks.R N) * Ks.ι N (C02L.valP rb N (Core.Ops.phase s (Ks.mkCt rb N res)))
+      + (B : Ks.R N) * (((2 : Ks.R N) ^ b) ^ (sa + cst.length - (cnvOffsetSplit b off).1) * (constTop N ((2 : Ks.R N) ^ b) a0 cst (cnvOffsetSplit b off).1
+          + ∑ i ∈ Finset.range (min s.length as.length), Ks.ι N (s.getD i []) * constTop N ((2 : Ks.R N) ^ b) (as.getD i []) cst (cnvOffsetSplit b off).1))
+      = (B : Ks.R N) * ((2 : Ks.R N) ^ b * (colVal N ((2 : Ks.R N) ^ b) a0
+          + ∑ i ∈ Finset.range (min s.length as.length), Ks.ι N (s.getD i []) * colVal N ((2 : Ks.R N) ^ b) (as.getD i [])) * constVal N ((2 : Ks.R N) ^ b) cst)
+        + Ks.ι N (C02L.errTo (min as.length s.length) s E) := by
+  subst h0
+  have hm : ((a0 :: as).map (fun x => cnvByConstCol N (a0.length + cst.length - (cnvOffsetSplit b off).1) (cnvOffsetSplit b off).1 x cst)).mapM
+      (fun c => bigNormalizeOff big128 N rb rs (cnvOffsetSplit b off).2 c b) = some res := by
+    rw [← mapM_comp]
+    exact h
+  have hwf : ∀ c ∈ (a0 :: as).map (fun x => cnvByConstCol N (a0.length + cst.length - (cnvOffsetSplit b off).1) (cnvOffsetSplit b off).1 x cst),
+      C02L.ColWF N (a0.length + cst.length - (cnvOffsetSplit b off).1) c := by
+    intro c hc
+    obtain ⟨x, hx, rfl⟩ := List.mem_map.mp hc
+    apply cnvByConstCol_wf
+    rcases List.mem_cons.mp hx with e | e
+    · rw [e]; exact hx0
+    · exact hxs x e
+  have hne : (a0 :: as).map (fun x => cnvByConstCol N (a0.length + cst.length - (cnvOffsetSplit b off).1) (cnvOffsetSplit b off).1 x cst) ≠ [] := by simp
+  have hacc : C02L.GWF N (Ks.mkCt b N ((a0 :: as).map (fun x => cnvByConstCol N (a0.length + cst.length - (cnvOffsetSplit b off).1) (cnvOffsetSplit b off).1 x cst))) := by
+    refine ⟨rfl, hne, ?_⟩
+    intro c hc
+    have e : (Ks.mkCt b N ((a0 :: as).map (fun x => cnvByConstCol N (a0.length + cst.length - (cnvOffsetSplit b off).1) (cnvOffsetSplit b off).1 x cst))).size
+        = a0.length + cst.length - (cnvOffsetSplit b off).1 := by
+      simp [GLWE.size, Ks.mkCt, Core.cnvByConstCol]
+    rw [e]
+    exact hwf c hc
+  have h1 := mapM_kernel_phase_modulo_norm _ rb b _ res hm hres hacc A B E hE (by
+    intro i hi C hC
+    exact hK i (by simpa using hi) C hC) s
+  have e1 : ((a0 :: as).map (fun x => cnvByConstCol N (a0.length + cst.length - (cnvOffsetSplit b off).1) (cnvOffsetSplit b off).1 x cst)).length - 1 = as.length := by simp
+  rw [e1] at h1
+  have h2 := phase_norm_compose N hN rb b _ s res _ hne hwf A B _ (C02L.errTo_length _ s E hE) h1
+  have h3 := mul_const_phase_value N hN s a0 as cst (cnvOffsetSplit b off).1 a0.length ((2 : Ks.R N) ^ b) rfl hall hx0 hxs hsa hsb hhi
+  rw [h2, ← h3]
+  ring
+
+example (s : List Poly) :
+    ((16 : Int) : Ks.R 1) * Ks.ι 1 (C02L.valP 4 1 (Core.Ops.phase s (Ks.mkCt 4 1 [[[6], [0]], [[2], [0]]])))
+      + ((1 : Int) : Ks.R 1) * (((2 : Ks.R 1) ^ 4) ^ (2 + [(2 : Int)].length - (cnvOffsetSplit 4 4).1) * (constTop 1 ((2 : Ks.R 1) ^ 4) [[3], [0]] [2] (cnvOffsetSplit 4 4).1
+          + ∑ i ∈ Finset.range (min s.length [([[1], [0]] : Col)].length), Ks.ι 1 (s.getD i []) * constTop 1 ((2 : Ks.R 1) ^ 4) (([[[1], [0]]] : List Col).getD i []) [2] (cnvOffsetSplit 4 4).1))
+      = ((1 : Int) : Ks.R 1) * ((2 : Ks.R 1) ^ 4 * (colVal 1 ((2 : Ks.R 1) ^ 4) [[3], [0]]
+          + ∑ i ∈ Finset.range (min s.length [([[1], [0]] : Col)].length), Ks.ι 1 (s.getD i []) * colVal 1 ((2 : Ks.R 1) ^ 4) (([[[1], [0]]] : List Col).getD i [])) * constVal 1 ((2 : Ks.R 1) ^ 4) [2])
+        + Ks.ι 1 (C02L.errTo (min [([[1], [0]] : Col)].length s.length) s (fun _ => [0])) :=
+  mul_const_decrypts (N := 1) (by decide) false 4 2 4 4 2 [[3], [0]] [[[1], [0]]] [2] [[[6], [0]], [[2], [0]]]
+    (by decide) rfl (by decide) (by decide) (by decide) (by decide) (by decide) (by decide) (by decide) 16 1 (fun _ => [0]) (fun _ => rfl)
+    (by
+      intro i hi C hC
+      have hi' : i = 0 ∨ i = 1 := by simp at hi; omega
+      rcases hi' with rfl | rfl
+      · have e : bigNormalizeOff false 1 4 2 (cnvOffsetSplit 4 4).2 (((([[3], [0]] : Col) :: [[[1], [0]]]).map (fun x => Core.cnvByConstCol 1
+            (2 + [(2 : Int)].length - (cnvOffsetSplit 4 4).1) (cnvOffsetSplit 4 4).1 x [2])).getD 0 []) 4 = some [[6], [0]] := by decide
+        have hC' := e.symm.trans hC; injection hC' with hC'; subst hC'; decide
+      · have e : bigNormalizeOff false 1 4 2 (cnvOffsetSplit 4 4).2 (((([[3], [0]] : Col) :: [[[1], [0]]]).map (fun x => Core.cnvByConstCol 1
+            (2 + [(2 : Int)].length - (cnvOffsetSplit 4 4).1) (cnvOffsetSplit 4 4).1 x [2])).getD 1 []) 4 = some [[2], [0]] := by decide
+        have hC' := e.symm.trans hC; injection hC' with hC'; subst hC'; decide) s
+/-- **`mul_plain_decrypts`** — `glwe_mul_plain`, same composed statement: the operands entering the value are the masked ones
+(`cnv_prepare_left/right`, `mask_keeps_top_bits`). -/
+theorem mul_plain_decrypts {N : Nat} (hN : 0 < N) (big128 : Bool) (rb rs off b sa : Nat) (a0 : Col) (as : List Col) (aK : Nat) (pt : Col) (bK : Nat)
+    (res : List Col) (h : mulPlain big128 N rb rs off b (a0 :: as) aK pt bK = some res)
+    (h0 : a0.length = sa) (hall : ∀ x ∈ as, x.length = sa) (hx0 : ∀ l ∈ a0, l.length = N) (hxs : ∀ x ∈ as, ∀ l ∈ x, l.length = N)
+    (hpt : ∀ l ∈ pt, l.length = N) (hsa : 1 ≤ sa) (hsb : 1 ≤ pt.length) (hhi : (cnvOffsetSplit b off).1 ≤ sa + pt.length - 1)
+    (hres : C02L.GWF N (Ks.mkCt rb N res))
+    (A B : Int) (E : Nat → Poly) (hE : ∀ i, (E i).length = N)
+    (hK : ∀ i, i < as.length + 1 → ∀ C,
+      bigNormalizeOff big128 N rb rs (cnvOffsetSplit b off).2
+        (((prepAll N (msbMaskBottomLimb b aK) (a0 :: as)).map (fun x => Hal.cnvApplyCol N (sa + pt.length - (cnvOffsetSplit b off).1) (cnvOffsetSplit b off).1 x
+          (Hal.cnvPrepareCol N pt.length (msbMaskBottomLimb b bK) pt))).getD i []) b = some C →
+      polyScale A (C02L.valP rb N C) = polyAdd (polyScale B (C02L.valP b N
+        (((prepAll N (msbMaskBottomLimb b aK) (a0 :: as)).map (fun x => Hal.cnvApplyCol N (sa + pt.length - (cnvOffsetSplit b off).1) (cnvOffsetSplit b off).1 x
+          (Hal.cnvPrepareCol N pt.length (msbMaskBottomLimb b bK) pt))).getD i []))) (E i))
+    (s : List Poly) :
+    (A : Ks.R N) * Ks.ι N (C02L.valP rb N (Core.Ops.phase s (Ks.mkCt rb N res)))
+      + (B : Ks.R N) * (((2 : Ks.R N) ^ b) ^ (sa + pt.length - (cnvOffsetSplit b off).1) *
+          (plainTop N ((2 : Ks.R N) ^ b) (Hal.cnvPrepareCol N a0.length (msbMaskBottomLimb b aK) a0) (Hal.cnvPrepareCol N pt.length (msbMaskBottomLimb b bK) pt) (cnvOffsetSplit b off).1
+          + ∑ i ∈ Finset.range (min s.length as.length), Ks.ι N (s.getD i []) *
+              plainTop N ((2 : Ks.R N) ^ b) ((prepAll N (msbMaskBottomLimb b aK) as).getD i []) (Hal.cnvPrepareCol N pt.length (msbMaskBottomLimb b bK) pt) (cnvOffsetSplit b off).1))
+      = (B : Ks.R N) * ((2 : Ks.R N) ^ b * (colVal N ((2 : Ks.R N) ^ b) (Hal.cnvPrepareCol N a0.length (msbMaskBottomLimb b aK) a0)
+          + ∑ i ∈ Finset.range (min s.length as.length), Ks.ι N (s.getD i []) * colVal N ((2 : Ks.R N) ^ b) ((prepAll N (msbMaskBottomLimb b aK) as).getD i []))
+            * colVal N ((2 : Ks.R N) ^ b) (Hal.cnvPrepareCol N pt.length (msbMaskBottomLimb b bK) pt))
+        + Ks.ι N (C02L.errTo (min as.length s.length) s E) := by
+  subst h0
+  have hm : ((prepAll N (msbMaskBottomLimb b aK) (a0 :: as)).map (fun x => Hal.cnvApplyCol N (a0.length + pt.length - (cnvOffsetSplit b off).1) (cnvOffsetSplit b off).1 x
+      (Hal.cnvPrepareCol N pt.length (msbMaskBottomLimb b bK) pt))).mapM (fun c => bigNormalizeOff big128 N rb rs (cnvOffsetSplit b off).2 c b) = some res := by
+    rw [← mapM_comp]
+    exact h
+  have hptP := cnvPrepareCol_limbs N pt.length (msbMaskBottomLimb b bK) pt hpt
+  have hwf : ∀ c ∈ (prepAll N (msbMaskBottomLimb b aK) (a0 :: as)).map (fun x => Hal.cnvApplyCol N (a0.length + pt.length - (cnvOffsetSplit b off).1) (cnvOffsetSplit b off).1 x
+      (Hal.cnvPrepareCol N pt.length (msbMaskBottomLimb b bK) pt)), C02L.ColWF N (a0.length + pt.length - (cnvOffsetSplit b off).1) c := by
+    intro c hc
+    obtain ⟨x, _, rfl⟩ := List.mem_map.mp hc
+    exact cnvApplyCol_wf N _ _ x _ hptP
+  have hne : (prepAll N (msbMaskBottomLimb b aK) (a0 :: as)).map (fun x => Hal.cnvApplyCol N (a0.length + pt.length - (cnvOffsetSplit b off).1) (cnvOffsetSplit b off).1 x
+      (Hal.cnvPrepareCol N pt.length (msbMaskBottomLimb b bK) pt)) ≠ [] := by simp [prepAll]
+  have hacc : C02L.GWF N (Ks.mkCt b N ((prepAll N (msbMaskBottomLimb b aK) (a0 :: as)).map (fun x => Hal.cnvApplyCol N (a0.length + pt.length - (cnvOffsetSplit b off).1) (cnvOffsetSplit b off).1 x
+      (Hal.cnvPrepareCol N pt.length (msbMaskBottomLimb b bK) pt)))) := by
+    refine ⟨rfl, hne, ?_⟩
+    intro c hc
+    have e : (Ks.mkCt b N ((prepAll N (msbMaskBottomLimb b aK) (a0 :: as)).map (fun x => Hal.cnvApplyCol N (a0.length + pt.length - (cnvOffsetSplit b off).1) (cnvOffsetSplit b off).1 x
+        (Hal.cnvPrepareCol N pt.length (msbMaskBottomLimb b bK) pt)))).size = a0.length + pt.length - (cnvOffsetSplit b off).1 := by
+      simp [GLWE.size, Ks.mkCt, prepAll, Hal.cnvApplyCol]
+    rw [e]
+    exact hwf c hc
+  have h1 := mapM_kernel_phase_modulo_norm _ rb b _ res hm hres hacc A B E hE (by
+    intro i hi C hC
+    exact hK i (by simpa [prepAll] using hi) C hC) s
+  have e1 : ((prepAll N (msbMaskBottomLimb b aK) (a0 :: as)).map (fun x => Hal.cnvApplyCol N (a0.length + pt.length - (cnvOffsetSplit b off).1) (cnvOffsetSplit b off).1 x
+      (Hal.cnvPrepareCol N pt.length (msbMaskBottomLimb b bK) pt))).length - 1 = as.length := by simp [prepAll]
+  rw [e1] at h1
+  have h2 := phase_norm_compose N hN rb b _ s res _ hne hwf A B _ (C02L.errTo_length _ s E hE) h1
+  have h3 := mul_plain_phase_value N hN s (Hal.cnvPrepareCol N a0.length (msbMaskBottomLimb b aK) a0) (prepAll N (msbMaskBottomLimb b aK) as)
+    (Hal.cnvPrepareCol N pt.length (msbMaskBottomLimb b bK) pt) (cnvOffsetSplit b off).1 a0.length ((2 : Ks.R N) ^ b)
+    (Hal.cnvPrepareCol_length _ _ _ _)
+    (by
+      intro x hx
+      obtain ⟨c, hc, rfl⟩ := List.mem_map.mp hx
+      rw [Hal.cnvPrepareCol_length]; exact hall c hc)
+    (cnvPrepareCol_limbs N _ _ a0 hx0)
+    (by
+      intro x hx
+      obtain ⟨c, hc, rfl⟩ := List.mem_map.mp hx
+      exact cnvPrepareCol_limbs N _ _ c (hxs c hc))
+    hptP hsa (by rw [Hal.cnvPrepareCol_length]; exact hsb) (by rw [Hal.cnvPrepareCol_length]; exact hhi)
+  rw [Hal.cnvPrepareCol_length] at h3
+  have e2 : prepAll N (msbMaskBottomLimb b aK) (a0 :: as)
+      = Hal.cnvPrepareCol N a0.length (msbMaskBottomLimb b aK) a0 :: prepAll N (msbMaskBottomLimb b aK) as := rfl
+  rw [e2] at h2
+  have e3 : (prepAll N (msbMaskBottomLimb b aK) as).length = as.length := by simp [prepAll]
+  rw [e3] at h3
+  rw [h2, ← h3]
+  ring
+
+example (s : List Poly) :
+    ((16 : Int) : Ks.R 1) * Ks.ι 1 (C02L.valP 4 1 (Core.Ops.phase s (Ks.mkCt 4 1 [[[6], [0]], [[2], [0]]])))
+      + ((1 : Int) : Ks.R 1) * (((2 : Ks.R 1) ^ 4) ^ (2 + ([[2]] : Col).length - (cnvOffsetSplit 4 4).1) *
+          (plainTop 1 ((2 : Ks.R 1) ^ 4) (Hal.cnvPrepareCol 1 ([[3], [0]] : Col).length (msbMaskBottomLimb 4 8) [[3], [0]])
+              (Hal.cnvPrepareCol 1 ([[2]] : Col).length (msbMaskBottomLimb 4 4) [[2]]) (cnvOffsetSplit 4 4).1
+          + ∑ i ∈ Finset.range (min s.length [([[1], [0]] : Col)].length), Ks.ι 1 (s.getD i []) *
+              plainTop 1 ((2 : Ks.R 1) ^ 4) ((prepAll 1 (msbMaskBottomLimb 4 8) [[[1], [0]]]).getD i [])
+                (Hal.cnvPrepareCol 1 ([[2]] : Col).length (msbMaskBottomLimb 4 4) [[2]]) (cnvOffsetSplit 4 4).1))
+      = ((1 : Int) : Ks.R 1) * ((2 : Ks.R 1) ^ 4 * (colVal 1 ((2 : Ks.R 1) ^ 4) (Hal.cnvPrepareCol 1 ([[3], [0]] : Col).length (msbMaskBottomLimb 4 8) [[3], [0]])
+          + ∑ i ∈ Finset.range (min s.length [([[1], [0]] : Col)].length), Ks.ι 1 (s.getD i []) *
+              colVal 1 ((2 : Ks.R 1) ^ 4) ((prepAll 1 (msbMaskBottomLimb 4 8) [[[1], [0]]]).getD i []))
+            * colVal 1 ((2 : Ks.R 1) ^ 4) (Hal.cnvPrepareCol 1 ([[2]] : Col).length (msbMaskBottomLimb 4 4) [[2]]))
+        + Ks.ι 1 (C02L.errTo (min [([[1], [0]] : Col)].length s.length) s (fun _ => [0])) :=
+  mul_plain_decrypts (N := 1) (by decide) false 4 2 4 4 2 [[3], [0]] [[[1], [0]]] 8 [[2]] 4 [[[6], [0]], [[2], [0]]]
+    (by decide) rfl (by decide) (by decide) (by decide) (by decide) (by decide) (by decide) (by decide) (by decide) 16 1 (fun _ => [0]) (fun _ => rfl)
+    (by
+      intro i hi C hC
+      have hi' : i = 0 ∨ i = 1 := by simp at hi; omega
+      rcases hi' with rfl | rfl
+      · have e : bigNormalizeOff false 1 4 2 (cnvOffsetSplit 4 4).2 (((prepAll 1 (msbMaskBottomLimb 4 8) (([[3], [0]] : Col) :: [[[1], [0]]])).map
+            (fun x => Hal.cnvApplyCol 1 (2 + ([[2]] : Col).length - (cnvOffsetSplit 4 4).1) (cnvOffsetSplit 4 4).1 x
+              (Hal.cnvPrepareCol 1 ([[2]] : Col).length (msbMaskBottomLimb 4 4) [[2]]))).getD 0 []) 4 = some [[6], [0]] := by decide
+        have hC' := e.symm.trans hC; injection hC' with hC'; subst hC'; decide
+      · have e : bigNormalizeOff false 1 4 2 (cnvOffsetSplit 4 4).2 (((prepAll 1 (msbMaskBottomLimb 4 8) (([[3], [0]] : Col) :: [[[1], [0]]])).map
+            (fun x => Hal.cnvApplyCol 1 (2 + ([[2]] : Col).length - (cnvOffsetSplit 4 4).1) (cnvOffsetSplit 4 4).1 x
+              (Hal.cnvPrepareCol 1 ([[2]] : Col).length (msbMaskBottomLimb 4 4) [[2]]))).getD 1 []) 4 = some [[2], [0]] := by decide
+        have hC' := e.symm.trans hC; injection hC' with hC'; subst hC'; decide) s
 /-
 NOT PROVED (checked by correspondence on every generated case, see docs/C05.md):
 * `tensorSquare_eq_tensorApply` and `tensorApply_acc_eq_add` for ranks ≥ 3 (the property's quantifier is rank 1..2;
